@@ -121,6 +121,20 @@ CLAIMS["C09"] = {
     "design_ref": "DESIGN.md section 5, C09",
 }
 
+CLAIMS["C01"] = {
+    "text": "Composition theorem modulo the DEFLATE library: for every list of sends (single-frame data messages through any API configuration, Ping/Pong with payloads, plain or compressed WriteFile for every reader chunking and compressor cutting, broadcast frames), either direction, the concatenation of the frames the write-path model emits, fed to the read-path model of the opposite role, yields exactly the list of the corresponding events - same opcode, byte-identical payload, each once, in wire order - and leaves the reader waiting for more (C01.sequence_fidelity; with prefix_monotone for every cut of the stream); under compression the sender's and receiver's windows stay equal along the sequence so the library's round-trip law applies to every message (sequence_fidelity_compressed / _negotiated); queued asynchronous sends reach the wire in queueing order (async_delivery_order from C15). Partial: the DEFLATE laws are hypotheses (sampled), parallel handling and real scheduling are observed; one corner is false of gws and listed as a known finding (incompressible payload at the limit under compression is refused with 1009).",
+    "note": "Trusted: Lean kernel; Codec laws (hypotheses); the composed models, each tied by its own suite; sess suite on real gws-to-gws connections.",
+    "technique": "Lean 4 composition proof (write-path model then read-path model = identity on messages) + differential correspondence on real gws-to-gws connections",
+    "design_ref": "DESIGN.md section 5, C01",
+}
+
+CLAIMS["C14"] = {
+    "text": "Partial, weakest fit: a functional model has no aliasing, so the property is modelled as an ownership protocol - a heap of locations with an owner each (pool, a library path, the application, or parked under its mutex) and, per library path (single/fragmented/compressed read, control frame, doWrite, WriteClose, plain and compressed WriteFile, upgrade, end of ReadLoop idle/busy, Broadcaster), the sequence of get/put/read/write/hand-off/lock events it performs. Proved: every path runs without violation from any heap where its buffers are free and leaves nothing owned by the library; caller payloads are never written and not read after return; a delivered message is untouched until the application closes it; every interleaving of paths over disjoint locations, or sharing mutex-guarded locations, is violation-free; the Broadcaster releases its frames exactly once, after Close and the last pending send; ReadLoop puts the compression window only while no writer holds c.mu. The per-path event sequences are compared with real pool-hook traces; aliasing itself is observed by poisoning released buffers, double-put detection and the race detector.",
+    "note": "Trusted: Lean kernel; the hand-written event model (tied by hook traces); sync.Pool and mutex semantics; runtime aliasing observed only.",
+    "technique": "Lean 4 proofs over an ownership-protocol transition system + trace correspondence through pool hooks + poisoning and race detector (validation)",
+    "design_ref": "DESIGN.md section 5, C14",
+}
+
 NOT_CLAIMED = {}
 
 # checks that exist but are not claimed in this commit (with the reason)
